@@ -18,6 +18,11 @@
     `C17_load_conflict_counterexample`: the C code replaces the typelib), (3) `Ranked`: no namespace depends on
     itself through recorded dependencies (cycles are invalid input: the C code recurses without bound).
     Histories are otherwise arbitrary.
+  * `C17_load_loaded`: as `C17_inv_partial` for one eager load-from-memory (guard (2), acyclic header).
+  * `C17_dependencies_exact`: the loaded typelibs are acyclic, every recorded dependency of a registered typelib
+    is registered (true under the invariant when nothing is lazily loaded: `C17_deps_known`), and the model's
+    recursion bound exceeds the rank of the namespace (the C code has no bound).
+  * `C17_private_dir`: as `C17_exact`.
   * `C17_conflict_mismatch_partial`: for a require WITHOUT version only the header namespace is
     compared with the file name (witness `C17_latest_version_mismatch_counterexample`); a lazily loaded namespace
     is only recognised as loaded when the LAZY flag is given (see (1)).
@@ -653,6 +658,47 @@ theorem C17_dependencies_sound (s : Repo) (fuel : Nat) (ns : Str) (l : List Str)
     · cases h
     · exact ⟨tl, hg, h⟩
 
+/-- …and, when the loaded typelibs are acyclic (`hrk`), every recorded dependency of a registered typelib
+    is itself registered (`hkn`; `C17_deps_known` gives it from the invariant when nothing is lazily
+    loaded) and the recursion bound of the model is not reached (`rank ns < fuel`; the C code has no
+    bound), it reports EXACTLY the dependency strings reachable from the namespace: the transitive
+    closure of the recorded dependencies of the files that were loaded. -/
+theorem C17_dependencies_exact (s : Repo) (rank : Str → Nat) (fuel : Nat) (ns : Str) (l : List Str)
+    (hrk : ∀ dn tl, getRegistered s dn = some tl → HdrRanked rank tl.hdr)
+    (hkn : ∀ dn tl, getRegistered s dn = some tl → ∀ d ∈ tl.hdr.deps, DepKnown s d)
+    (hfuel : rank ns < fuel) (h : getDependencies s fuel ns = some l) :
+    ∀ d, d ∈ l ↔ Reach s ns d := by
+  intro d
+  refine ⟨C17_dependencies_sound s fuel ns l h d, ?_⟩
+  rintro ⟨tl, hg, hreach⟩
+  unfold getDependencies at h
+  simp only [hg, Option.map_some, Option.some.injEq] at h
+  subst h
+  have hns := getRegistered_ns hg
+  exact depsTransitive_complete s rank hrk hkn tl.hdr d hreach (hrk ns tl hg) (hkn ns tl hg) fuel []
+    (by rw [hns]; exact hfuel)
+
+/-- Under the invariant, with no lazily loaded namespace, every recorded dependency of a registered
+    typelib is registered (at the recorded version: `Inv.deps`). -/
+theorem C17_deps_known (fs : FS) (s : Repo) (hinv : Inv fs s) (hlazy : s.lazy = []) :
+    ∀ dn tl, getRegistered s dn = some tl → ∀ d ∈ tl.hdr.deps, DepKnown s d := by
+  intro dn tl hg d hd
+  unfold getRegistered at hg
+  cases hst : getRegisteredStatus s dn none true with
+  | conflict v => simp [hst] at hg
+  | absent b => simp [hst] at hg
+  | found t =>
+    simp only [hst, Option.some.injEq] at hg
+    subst hg
+    obtain ⟨_, _, h3⟩ := status_found hst
+    rcases h3 with ⟨l, hl, hlt⟩ | ⟨_, l, hl, _⟩
+    · obtain ⟨dn', dv', hsd, l', hl', hn', _⟩ := hinv.deps l hl d (by rw [hlt]; exact hd)
+      cases hlk : lookupTbl s.typelibs dn' with
+      | none => exact absurd hn' (lookupTbl_none.mp hlk l' hl')
+      | some l'' =>
+        exact ⟨dn', dv', l''.tl, hsd, by simp [getRegistered, getRegisteredStatus, hlk, checkVersionConflict]⟩
+    · rw [hlazy] at hl; cases hl
+
 /-! ### non-vacuity -/
 
 example : compareVersion "1.10".toList "1.9".toList = some 1 := by decide
@@ -704,6 +750,43 @@ example : Guarded demoFS 4 (fun n => if n = "Bar".toList then 0 else 1) (Repo.in
     have e : getRegisteredStatus (step demoFS 4 (Repo.init demoPath) (Op.require "Foo".toList none false))
         "Baz".toList (some "1.0".toList) false = .absent false := by decide
     exact Status.noConfusion (e.symm.trans hv)
+-- C17_require_loaded / C17_load_loaded / C17_inv_partial: demoFS is acyclic (`Ranked`)
+example : Ranked demoFS (fun n => if n = "Bar".toList then 0 else 1) := by
+  intro p h hfa dep hdep dn dv hsd
+  obtain ⟨d, es, e, hd, he, _, rfl⟩ := hfa
+  have hmem : (d, es) ∈ demoFS := by
+    unfold lookupDir at hd
+    cases hf : demoFS.find? (fun p => p.1 == d) with
+    | none => simp [hf] at hd
+    | some q =>
+      simp only [hf, Option.some.injEq] at hd
+      have h1 := List.mem_of_find?_eq_some hf
+      have h2 : q.1 = d := by simpa using List.find?_some hf
+      cases q; simp_all
+  have hall : ∀ q ∈ demoFS, ∀ e ∈ q.2, ∀ dep ∈ e.hdr.deps,
+      e.hdr.ns = "Foo".toList ∧ dep = "Bar-1.0".toList := by decide
+  obtain ⟨h1, h2⟩ := hall _ hmem e he dep hdep
+  subst h2
+  have e2 : splitDep "Bar-1.0".toList = some ("Bar".toList, "1.0".toList) := by decide
+  rw [e2] at hsd; cases hsd
+  rw [h1]; decide
+-- C17_load_loaded: loading Baz (depends on Bar-1.0) from memory into the initial state loads Bar from /b
+example : (let r := loadTypelib demoFS 4 (Repo.init demoPath) ⟨"Baz".toList, "1.0".toList, ["Bar-1.0".toList]⟩ false
+           r.1.staleKey = false ∧ getLoadedNamespaces r.1 = ["Bar".toList, "Baz".toList] ∧
+           getTypelibPath r.1 "Baz".toList = some builtinSource ∧
+           getTypelibPath r.1 "Bar".toList = some "/b/Bar-1.0.typelib".toList) := by decide
+example : getRegisteredStatus (Repo.init demoPath) "Baz".toList (some "1.0".toList) false = .absent false := by decide
+-- C17_enumerate_versions: both spellings-by-directory are listed once per version string
+example : enumerateVersionsQuery demoFS (Repo.init demoPath) "Foo".toList = ["1.9".toList, "1.10".toList] := by decide
+-- C17_private_dir: /c has Foo-1.10 (no dependencies) although /b comes first on the global path
+example : (requirePrivate demoFS 4 (Repo.init demoPath) "/c".toList "Foo".toList (some "1.10".toList) false).1.typelibs.map
+    (·.source) = ["/c/Foo-1.10.typelib".toList] := by decide
+example : (requirePrivate demoFS 4 (Repo.init demoPath) "/a".toList "Foo".toList (some "1.10".toList) false).2
+    = .error .notFound := by decide
+-- C17_dependencies_exact on the state after `require Foo`: Foo 1.10 → Bar-1.0
+example : getDependencies (run demoFS 4 (Repo.init demoPath) [.require "Foo".toList none false]) 4 "Foo".toList
+    = some ["Bar-1.0".toList] := by decide
+example : (run demoFS 4 (Repo.init demoPath) [.require "Foo".toList none false]).lazy = [] := by decide
 -- conflict: Foo 1.10 loaded, 1.9 required
 example : (require demoFS 4 (run demoFS 4 (Repo.init demoPath) [.require "Foo".toList none false])
     "Foo".toList (some "1.9".toList) false).2 = .error .versionConflict := by decide
